@@ -1,5 +1,6 @@
 import Cvise.Drv.Binary
 import Cvise.Drv.Matcher
+import Cvise.Drv.Driver
 open Cvise.Drv
 
 def dispatch (line : String) : String :=
@@ -9,6 +10,7 @@ def dispatch (line : String) : String :=
   | "binrunt" :: args => handleBinRunT args
   | "msearch" :: args => handleMSearch args
   | "rx" :: args => handleRx args
+  | "drv" :: _ => handleDrv line
   | _ => "bad-op"
 
 partial def loop (h : IO.FS.Stream) (out : IO.FS.Stream) : IO Unit := do
